@@ -36,7 +36,12 @@ func main() {
 	tier := flag.String("tier", "quick", "quick|thorough")
 	depthFlag := flag.Int("depth", 0, "history depth bound of the sequential part (0: 5 quick / 7 thorough)")
 	replay := flag.String("replay", "", "re-execute the sequential history of a replay file and print what the oracle says")
+	racepass := flag.String("racepass", "", "internal: run the race pass (needs a -race build) and write its result to this file")
 	flag.Parse()
+
+	if *racepass != "" {
+		os.Exit(racePass(*tier, *racepass))
+	}
 
 	verifDir := os.Getenv("VERIF_DIR")
 	if verifDir == "" {
@@ -116,7 +121,12 @@ func main() {
 		harness("concurrent part: %v", err)
 	}
 
-	// evidence: both parts combined, written once
+	race, err := runRace(*tier, rep, deadline)
+	if err != nil {
+		harness("race part: %v", err)
+	}
+
+	// evidence: all parts combined, written once
 	classes := map[string]bool{}
 	cov := map[string]any{}
 
@@ -125,7 +135,7 @@ func main() {
 		assumptions []string
 	)
 
-	for _, p := range []partResult{seq, conc} {
+	for _, p := range []partResult{seq, conc, race} {
 		for c := range p.Classes {
 			classes[p.Name+": "+c] = true
 		}
@@ -154,17 +164,17 @@ func main() {
 	}
 
 	cov["states"] = seq.States + conc.States
-	cov["transitions"] = seq.Transitions + conc.Transitions
-	cov["traces_validated_against_impl"] = seq.Transitions + conc.Transitions
-	cov["evaluations"] = seq.Evaluations + conc.Evaluations
+	cov["transitions"] = seq.Transitions + conc.Transitions + race.Transitions
+	cov["traces_validated_against_impl"] = seq.Transitions + conc.Transitions + race.Transitions
+	cov["evaluations"] = seq.Evaluations + conc.Evaluations + race.Evaluations
 	cov["distinct_nontrivial"] = len(cl)
 	cov["rule"] = "seq: every history up to the bound over the call alphabet is executed on a fresh real MemIdm (one transition = one replayed history + one call + the full state check; evaluations = transitions + the lookups of the state checks, i.e. every real call whose outcome was compared with the model); " +
 		"a case class is (method, class of each operand in the model state before the call: admin / admin-name readded / absent / live / live with gid 0 / retired id / never used id, error type returned); " +
 		"distinct_nontrivial counts the distinct classes observed, listed in outcome_classes"
 	cov["outcome_classes"] = cl
 	cov["samples"] = samples
-	cov["exhaustive"] = seq.Exhaustive && conc.Exhaustive
-	cov["bound"] = "seq: " + seq.Bound + "; conc: " + conc.Bound
+	cov["exhaustive"] = seq.Exhaustive && conc.Exhaustive && race.Exhaustive
+	cov["bound"] = "seq: " + seq.Bound + "; conc: " + conc.Bound + "; race: " + race.Bound
 	cov["known_findings_matched"] = known
 	cov["violating_instances"] = rep.Total
 	cov["budget_s"] = budget
@@ -179,7 +189,7 @@ func main() {
 	}
 
 	fmt.Printf("%s %s: %s; %s; %d outcome classes; known findings matched %v; new violation signatures %d; exhaustive=%v; %.1fs\n",
-		*id, *tier, seq.Summary, conc.Summary, len(cl), known, rep.NewCount(), cov["exhaustive"], ev.Elapsed())
+		*id, *tier, seq.Summary, conc.Summary+"; "+race.Summary, len(cl), known, rep.NewCount(), cov["exhaustive"], ev.Elapsed())
 
 	os.Exit(code)
 }
